@@ -17,7 +17,14 @@ def frequency(model: zoo.Model, q) -> float:
         h = h + np.identity(model.dim)
     m = model.ref_metric(q)
     lam = np.linalg.eigvals(np.linalg.solve(m, h)).real
-    return float(np.sqrt(max(np.max(np.abs(lam)), 1e-3)))
+    w2 = max(np.max(np.abs(lam)), 1e-3)
+    if model.constrained:
+        # curvature of the constraint manifold (rate at which a unit-speed curve turns): |Hess_i| / |J_i|
+        cn = model.constraint
+        j, hs = cn.jac(q), cn.hess(q)
+        kappa = max(np.linalg.norm(hs[i], 2) / max(np.linalg.norm(j[i]), 1e-12) for i in range(cn.n))
+        w2 += kappa**2
+    return float(np.sqrt(w2))
 
 
 def random_int_spec(rng, sys_kind: str, *, tight: bool | None = None, kinds=None) -> dict:
